@@ -277,6 +277,12 @@ def gen_names_case(seed, idx):
         ops.append({"op": "write", "path": "$SIDE/gm/cpless_glyphmap.py", "content": "text:" + CUSTOM_GLYPHMAP})
         argv = ["--glyphmap_generator", "cpless_glyphmap"] + argv
         env = {"PYTHONPATH": "$SIDE/gm"}
+    if delivery == "flags" and not custom_gm and r.random() < 0.35:
+        # an earlier invocation on the same build directory named one more source: its messages must not survive
+        extra_cps = (0x1F9FF,)
+        if extra_cps not in cps_seen:
+            ops.append({"op": "write", "path": "src/emoji_u1f9ff.svg", "content": gen.content(r, True)})
+            ops.append({"op": "invoke", "cwd": ".", "argv": argv + ["src/emoji_u1f9ff.svg"], "build_dir": "build", "label": "prev", "sched": gen.sched(rs)})
     inv = {"op": "invoke", "cwd": ".", "argv": argv, "build_dir": "build", "label": "build", "sched": gen.sched(rs), "final": True}
     if env:
         inv["env"] = env
@@ -416,6 +422,20 @@ def monitors(inv, meta, root_hint=None):
             missing = sorted(set(meta["stems"]) - got_stems)
             if missing:
                 out.append({"class": "handoff-mismatch", "detail": {"what": "a source the driver resolved never reached the glyph map", "step": "glyphmap", "missing": missing[:3]}})
+    # the glyph mapping a font step reads must describe exactly the sources the driver resolved in this invocation,
+    # whether or not the glyphmap step ran this time
+    resolved = None
+    for t in driver_loads:
+        ms = t["cfg"].get("masters") or []
+        if len(ms) == 1:
+            resolved = {os.path.basename(s_).rsplit(".", 1)[0] for s_ in ms[0]["sources"]}
+    if resolved is not None and len(writes) == 1:
+        for t in trace:
+            if t["k"] == "gm.parse" and t["proc"] in steps and steps[t["proc"]]["rule"] == "write_font" and steps[t["proc"]]["status"] == ["exit", 0]:
+                got = {os.path.basename(g["svg"] or g["png"]).rsplit(".", 1)[0] for g in t["gms"] if isinstance(g, dict) and (g.get("svg") or g.get("png"))}
+                if got != resolved:
+                    out.append({"class": "handoff-mismatch", "detail": {"what": "the glyph mapping read by write_font does not describe the sources the driver resolved",
+                                                                        "step": "write_font", "only_in_glyphmap": sorted(got - resolved)[:3], "only_resolved": sorted(resolved - got)[:3]}})
     # parts
     sent_parts = {}
     for t in trace:
